@@ -9,6 +9,31 @@ HERE = os.path.dirname(os.path.dirname(os.path.abspath(__file__)))
 sys.path.insert(0, HERE)
 
 CLAIMED = {
+    'C18': dict(
+        category='other',
+        text='Control-flow and arithmetic clauses of enable: writeFile is the only writer and is called only by enable and '
+             'disable; the "already enabled" outcome returns 0 and the "foreign instance" outcome ends in the fatal exit, '
+             'both provably without reaching the (at most one) write, and both tests dominate it; the own-entry search '
+             'accepts exactly the documented follower characters {NUL, LF, #, space, tab} tested on the single character '
+             'after a line-initial match; the new buffer is strlen(old)+strlen(path)+3 bytes, the old content is copied '
+             'whole to its start and the entry is appended at an address proved >= new + strlen(old) (nothing of the old '
+             'content is overwritten), all stores bounded (linear-inequality engine).',
+        design_ref='DESIGN.md §5 C18',
+        note='Not decided: the byte-level result beyond these clauses; comment-line classification by the foreign-instance '
+             'search (a comment naming libsnoopy.so twice is misread - observed, outside the rules); agreement with status.',
+        technique='static analysis: branch-polarity reachability + character-set table agreement + linear-inequality obligations'),
+    'C19': dict(
+        category='other',
+        text='Control-flow and arithmetic clauses of disable: sole writer; the "absent" outcome returns 0 and the duplicate '
+             'outcome ends in the fatal exit without reaching the (at most one) write; entry recognition uses exactly the '
+             'documented follower set; the new buffer is strlen(old)+1; the part before the entry is copied as [old, entry) '
+             'to the start, the remainder is copied from an address proved to be entry + strlen(entry line) or one byte '
+             'later and lands right behind the first part (so no following blank line, comment or entry can be swallowed); '
+             'every copy bounded.',
+        design_ref='DESIGN.md §5 C19',
+        note='Not decided: a library sharing the entry\'s own line is removed with that line (documented whole-line '
+             'mechanism; observed, outside the rules); byte-level result in general.',
+        technique='static analysis: branch-polarity reachability + linear-inequality obligations over pointers into the old content'),
     'C12': dict(
         category='other',
         text='For every registered data source the backward def-use slice of each value it prints (through locals, '
